@@ -343,6 +343,11 @@ def stage_find_model(ctx: Ctx, progs):
             b = f.bloc
             return f'(Node {ids[id(f)]} {lin(b[0], b[1])} {lin(b[2], b[3])} [' + '; '.join(enc(c) for c in f.walk('loc', self_=False, recurse=False)) + '])'
         tree = enc(root)
+
+        def enc_loc(f):
+            b = f.loc
+            return f'(Node {ids[id(f)]} {lin(b[0], b[1])} {lin(b[2], b[3])} [' + '; '.join(enc_loc(c) for c in f.walk('loc', self_=False, recurse=False)) + '])'
+        tree_loc = enc_loc(root)
         spans = set()
         for f in nodes:
             b = tuple(f.bloc)
@@ -368,13 +373,23 @@ def stage_find_model(ctx: Ctx, progs):
             if r is False:
                 continue
             exp.append((lin(ln, col), lin(eln, ecol), None if r is None else ids[id(r)], [ln, col, eln, ecol]))
+        exp_in = []
+        for (ln, col, eln, ecol) in spans:
+            try:
+                r = root.find_in_loc(ln, col, eln, ecol)
+            except Exception as e:
+                ctx.violation(f'find-raise|{type(e).__name__}', 'find_in_loc raised', {'src': src, 'span': [ln, col, eln, ecol], 'error': repr(e)[:200]})
+                continue
+            exp_in.append((lin(ln, col), lin(eln, ecol), None if r is None else ids[id(r)]))
+        terms.append('let t := ' + tree_loc + ' in ' + ' && '.join(f'on_eqb (find_in t {a} {b}) {"None" if r is None else "(Some " + str(r) + ")"}' for a, b, r in exp_in))
+        meta.append({'src': src, 'find_in_loc_spans': len(exp_in)})
         ctx.tick(('find-model', src), 'find-model:program')
         terms.append('let t := ' + tree + ' in ' + ' && '.join(f'on_eqb (find_contains t {a} {b}) {"None" if r is None else "(Some " + str(r) + ")"}' for a, b, r, _ in exp))
         meta.append({'src': src, 'spans': len(exp)})
         terms.append(f'wf {tree} || true')       # evaluated for the count below
         meta.append({'src': src, 'wf': True})
     failed = coq_eval_bools('C06_find', FHDR, terms, shard=12)
-    ctx.correspondence('models/FindLoc.v find_contains == FST.find_contains_loc on encoded trees (node spans, their ends, shortened spans, random spans)', len(terms) // 2, [meta[i] for i in failed])
+    ctx.correspondence('models/FindLoc.v find_contains / find_in == FST.find_contains_loc / find_in_loc on encoded trees (node spans, their ends, shortened spans, random spans)', len(terms) // 3, [meta[i] for i in failed])
 
 
 def run(ctx: Ctx):
